@@ -342,7 +342,7 @@ func loadFindings() []Finding {
 }
 
 func (f *Finding) matches(prop string, v *Violation) bool {
-	if f.Status != "known" || f.Kind != v.Kind {
+	if f.Status != "known" || (f.Kind != v.Kind && f.Kind != "*") {
 		return false
 	}
 	if f.Property != prop && f.Property != v.Property {
@@ -577,6 +577,12 @@ func cmdCheck(args []string) int {
 	knownHit := map[string]int{}
 	var vioLines []string
 	nViol := 0
+	type pending struct {
+		k string
+		r *violRec
+	}
+	var todo []pending
+	perKind := map[string]int{}
 	for _, k := range keys {
 		r := a.viol[k]
 		var kf *Finding
@@ -591,14 +597,31 @@ func cmdCheck(args []string) int {
 			continue
 		}
 		nViol++
-		bb := b
-		if r.out.Spec.Param["race"] == 1 && braces != nil {
-			bb = braces
-		}
-		path := writeReplay(bb, id, r, !*noShrink, *tier)
-		vioLines = append(vioLines, fmt.Sprintf("VIOLATION property=%s replay=%s", id, path))
-		fmt.Printf("violation %s (%d runs): %s\n", k, r.count, firstLine(r.v.Msg))
 		exit = 1
+		fmt.Printf("violation %s (%d runs): %s\n", k, r.count, firstLine(r.v.Msg))
+		// replay files: at most two per violation kind and twelve per check
+		if perKind[r.v.Kind] >= 2 || len(todo) >= 12 {
+			continue
+		}
+		perKind[r.v.Kind]++
+		todo = append(todo, pending{k, r})
+	}
+	paths := make([]string, len(todo))
+	var swg sync.WaitGroup
+	for i, p := range todo {
+		swg.Add(1)
+		go func(i int, p pending) {
+			defer swg.Done()
+			bb := b
+			if p.r.out.Spec.Param["race"] == 1 && braces != nil {
+				bb = braces
+			}
+			paths[i] = writeReplay(bb, id, p.r, !*noShrink, *tier)
+		}(i, p)
+	}
+	swg.Wait()
+	for _, p := range paths {
+		vioLines = append(vioLines, fmt.Sprintf("VIOLATION property=%s replay=%s", id, p))
 	}
 	var kl []string
 	for l := range knownHit {
@@ -813,9 +836,9 @@ func writeReplay(b *build, id string, r *violRec, shrink bool, tier string) stri
 	if shrink && len(o.Choices) > 0 {
 		spec := o.Spec
 		spec.Replay = o.Choices
-		budget := 60000
+		budget := 30000
 		if tier == "thorough" {
-			budget = 180000
+			budget = 120000
 		}
 		_, sr, _, _, _ := runJob(b, &Job{Shrink: &ShrinkJob{Spec: spec, Property: r.v.Property, Kind: r.v.Kind, BudgetMs: budget}}, 1, time.Duration(budget)*time.Millisecond+5*time.Minute)
 		if sr != nil && sr.Out != nil && len(sr.Choices) <= len(o.Choices) {
